@@ -327,6 +327,30 @@ func (e *Engine) decide(c *Term) bool {
 }
 
 // concretize forks over the feasible values of t.
+// fewValues reports whether t has at most max feasible values under the
+// current path condition (probing queries only: nothing is forked or assumed).
+// On a replayed prefix the recorded decision kind answers the question.
+func (e *Engine) fewValues(t *Term, max int) bool {
+	if t.konst() {
+		return true
+	}
+	if idx := len(e.taken); idx < len(e.prefix) {
+		return e.prefix[idx].IsVal
+	}
+	var excl []*Term
+	for i := 0; i <= max; i++ {
+		r, m := e.query(excl...)
+		if r == "unsat" {
+			return true
+		}
+		if r != "sat" {
+			return false
+		}
+		excl = append(excl, tNot(tEq(t, bvConst(m.eval(t), t.w))))
+	}
+	return false
+}
+
 func (e *Engine) concretize(t *Term) uint64 {
 	if t.konst() {
 		return t.c
